@@ -212,11 +212,12 @@ Start(b, s, m) ==                                            \* m < 0: start() w
             ELSE [b EXCEPT !.step = 0, !.max = m, !.stepw = IF m > 0 THEN Len(Digits(m)) ELSE 4]
   IN Display(b1, s)
 
-\* since: ticks since the last write, capped at maxgap; _last_write_time = 0 initially lies in the distant past
+\* since: ticks since the last write, capped at the larger of the two intervals (a minimum interval may exceed the
+\* maximum one - then the throttle wins: nothing is drawn before mingap has passed); _last_write_time = 0 initially lies in the distant past
 \* (never throttles, always "too late"), which is the cap
 NewBar(m, maxgap) == [max |-> m, step |-> 0, stepw |-> IF m > 0 THEN Len(Digits(m)) ELSE 4, since |-> maxgap,
                       lastLen |-> 0, writes |-> 0, fmtset |-> FALSE, nomax |-> FALSE, flc |-> 0, msg |-> <<"m">>]
-Tick(b, dt) == [b EXCEPT !.since = TMin(cfg.maxgap, @ + dt)]
+Tick(b, dt) == [b EXCEPT !.since = TMin(TMax(cfg.mingap, cfg.maxgap), @ + dt)]
 
 \* ------------------------------------------------------------------ behaviours
 CallResult(op, arg, bt, s) ==
@@ -233,7 +234,7 @@ Event(op, arg, dt, gap, r, b) ==
    progress |-> b.step, maxsteps |-> b.max, msg |-> b.msg, pprog |-> last.progress, pmax |-> last.maxsteps]
 
 InitWith(c) ==                                               \* c.max0: the maximum given to the constructor
-  /\ cfg = c /\ bar = NewBar(TMax(0, c.max0), c.maxgap) /\ sec = [content |-> <<>>, lines |-> 0]
+  /\ cfg = c /\ bar = NewBar(TMax(0, c.max0), TMax(c.mingap, c.maxgap)) /\ sec = [content |-> <<>>, lines |-> 0]
   /\ term = ApplyOps(TermNew(c.w), LinesOps(c.pre))
   /\ shown = NoFrame /\ sinceAdv = -1 /\ plog = <<>>
   /\ last = [op |-> "new", arg |-> c.max0, dt |-> 0, gap |-> -1, frames |-> <<>>, ops |-> <<>>, exc |-> "",
